@@ -43,6 +43,12 @@ let rec p_b (ts : string list) : bexpr * string list = match ts with
   | "(" :: "defi" :: r -> let (a, r) = p_i r in (BDefinedI a, close r)
   | "(" :: "of" :: r -> let (q, r) = p_q r in (match r with
       | n :: r -> let (set, r) = take_nats (int_of_string n) r in (BOf (q, set), close r) | [] -> raise (Parse "eof"))
+  | "(" :: "ofin" :: r -> let (q, r) = p_q r in (match r with
+      | n :: r -> let (set, r) = take_nats (int_of_string n) r in let (l, r) = p_i r in let (h, r) = p_i r in (BOfIn (q, set, l, h), close r)
+      | [] -> raise (Parse "eof"))
+  | "(" :: "ofat" :: r -> let (q, r) = p_q r in (match r with
+      | n :: r -> let (set, r) = take_nats (int_of_string n) r in let (e, r) = p_i r in (BOfAt (q, set, e), close r)
+      | [] -> raise (Parse "eof"))
   | "(" :: "forin" :: r -> let (q, r) = p_q r in let (l, r) = p_i r in let (h, r) = p_i r in let (b, r) = p_b r in
       (BForIn (q, l, h, b), close r)
   | "(" :: "forlist" :: r -> let (q, r) = p_q r in (match r with
